@@ -93,6 +93,8 @@ pub(crate) mod concurrent_read_map;
 pub(crate) mod mapped_addrs;
 pub(crate) mod remote_map;
 pub(crate) mod transports;
+#[cfg(feature = "verif-hooks")]
+pub(crate) mod verif;
 
 use self::mapped_addrs::{EndpointIdMappedAddr, MappedAddr};
 pub use self::metrics::Metrics;
